@@ -425,12 +425,26 @@ BYTES_MUT = re.compile(
 _SHARD_RX = re.compile(SHARD_MAP)
 
 
+_DATASET_PT = None
+
+
+def _dataset_pt():
+    import prov
+    return re.compile(prov.PASS_THROUGH.pattern[:-1] +
+                      r"|^std::collections::hash_map::OccupiedEntry::<.*>::(get|get_mut|into_mut)$"
+                      r"|^std::collections::hash_map::Entry::<.*>::(or_insert|or_insert_with|or_default)(::<.*>)?$"
+                      r"|^std::option::Option::<.*>::(map|as_deref_mut|filter)(::<.*>)?$)")
+
+
 def from_dataset(b, op):
     """does the operand derive from a value stored in the shard map (get/get_mut/entry/...)?"""
     import prov
     if "c" in op:
         return False
-    P = prov.operand_origins(b, op)
+    global _DATASET_PT
+    if _DATASET_PT is None:
+        _DATASET_PT = _dataset_pt()
+    P = prov.operand_origins(b, op, pass_through=_DATASET_PT)
     return P.has_call(_SHARD_RX)
 
 
